@@ -228,6 +228,8 @@ trait Ops {
     fn io_copy(&mut self, d: &[u8]) -> Option<Result<u64, ()>>;
     fn io_flush(&mut self) -> Option<bool>;
     fn h_write(&mut self, d: &[u8]);
+    /// core::hash::Hasher::write_<kind>(value whose little-endian bytes are d)
+    fn h_write_int(&mut self, kind: &str, d: &[u8]);
     fn h_finish(&self) -> u64;
     fn ckpt(&self) -> [u8; 164];
     fn clone_box(&self) -> Box<dyn Ops>;
@@ -357,6 +359,30 @@ macro_rules! ops_adapters {
             let t = self.get();
             lib(|| Hasher::finish(t))
         }
+        fn h_write_int(&mut self, kind: &str, d: &[u8]) {
+            let t = self.get_mut();
+            macro_rules! w {
+                ($ty:ty, $m:ident) => {{
+                    let v = <$ty>::from_le_bytes(d.try_into().expect("script: hwint width"));
+                    lib(|| Hasher::$m(t, v))
+                }};
+            }
+            match kind {
+                "u8" => w!(u8, write_u8),
+                "u16" => w!(u16, write_u16),
+                "u32" => w!(u32, write_u32),
+                "u64" => w!(u64, write_u64),
+                "u128" => w!(u128, write_u128),
+                "usize" => w!(usize, write_usize),
+                "i8" => w!(i8, write_i8),
+                "i16" => w!(i16, write_i16),
+                "i32" => w!(i32, write_i32),
+                "i64" => w!(i64, write_i64),
+                "i128" => w!(i128, write_i128),
+                "isize" => w!(isize, write_isize),
+                _ => panic!("script: hwint kind"),
+            }
+        }
     };
 }
 // NeonHash implements neither core::hash::Hasher nor io::Write (no impl_write!/impl_hasher! in aarch64.rs)
@@ -378,6 +404,9 @@ macro_rules! ops_no_adapters {
             panic!("script: this hasher type does not implement Hasher")
         }
         fn h_finish(&self) -> u64 {
+            panic!("script: this hasher type does not implement Hasher")
+        }
+        fn h_write_int(&mut self, _kind: &str, _d: &[u8]) {
             panic!("script: this hasher type does not implement Hasher")
         }
     };
@@ -617,6 +646,13 @@ fn run_history(lines: &[&str], out: &mut String) {
                 let d = unhex(t[2]);
                 let h = regs.get_mut(&reg(1)).expect("script: absent register");
                 with_data(place, &d, |s| if t[0] == "append" { h.append(s) } else { h.h_write(s) });
+                out.push_str("OK\n");
+                alloc_line(out);
+            }
+            "hwint" => {
+                let d = unhex(t[3]);
+                let h = regs.get_mut(&reg(1)).expect("script: absent register");
+                h.h_write_int(t[2], &d);
                 out.push_str("OK\n");
                 alloc_line(out);
             }
@@ -908,7 +944,7 @@ fn intrin_mode(path: &str) {
 fn main() {
     let args: Vec<String> = std::env::args().collect();
     if args.len() < 2 {
-        eprintln!("usage: hwharness info | run <script> [threads]");
+        eprintln!("usage: hwharness info | run <script> [threads] | stress <script> <threads> <reps> | intrin <file>");
         std::process::exit(2);
     }
     if args[1] == "info" {
@@ -950,6 +986,46 @@ fn main() {
         out
     };
     let stdout = std::io::stdout();
+    if args[1] == "stress" {
+        // every thread runs EVERY history `reps` times, all at once; each run is compared with the transcript of a
+        // single-threaded pass made before the threads start.  Prints the histories whose transcript ever deviated.
+        let reps: usize = args.get(4).map(|s| s.parse().unwrap()).unwrap_or(1);
+        let expect: Vec<String> = hist.iter().map(|h| run_one(h)).collect();
+        let barrier = std::sync::Barrier::new(threads);
+        let bad: Vec<Vec<(usize, String)>> = std::thread::scope(|sc| {
+            let (hist, run_one, expect, barrier) = (&hist, &run_one, &expect, &barrier);
+            let handles: Vec<_> = (0..threads)
+                .map(|ti| {
+                    sc.spawn(move || {
+                        let mut v: Vec<(usize, String)> = Vec::new();
+                        barrier.wait();
+                        for rep in 0..reps {
+                            for k in 0..hist.len() {
+                                // half of the threads walk in the same order (same operation at the same moment), the
+                                // others start elsewhere (different hashers and keys alive at the same moment)
+                                let i = if ti % 2 == 0 { k } else { (k + (ti * 7 + rep * 13) * hist.len() / 16) % hist.len() };
+                                let got = run_one(&hist[i]);
+                                if got != expect[i] && !v.iter().any(|x| x.0 == i) {
+                                    v.push((i, got));
+                                }
+                            }
+                        }
+                        v
+                    })
+                })
+                .collect();
+            handles.into_iter().map(|h| h.join().unwrap()).collect()
+        });
+        let mut lock = stdout.lock();
+        let mut seen = std::collections::BTreeSet::new();
+        for (i, got) in bad.into_iter().flatten() {
+            if seen.insert(i) {
+                let _ = write!(lock, "{}\nSTRESSBAD\n{}EXPECTED\n{}", hist[i].0, got, expect[i]);
+            }
+        }
+        let _ = writeln!(lock, "H 999999999\nSTRESS histories={} threads={} reps={} deviating={}", hist.len(), threads, reps, seen.len());
+        return;
+    }
     if threads <= 1 {
         let mut lock = stdout.lock();
         for h in &hist {
